@@ -53,6 +53,14 @@ def configs(tier, seed):
     for (m, n) in [(2, 1), (3, 2), (4, 3)]:
         out.append({"name": f"nnls-{m}x{n}", "kind": "nnls", "m": m, "n": n})
     out.append({"name": "dispatch", "kind": "dispatch"})
+    # the same obligations entered through the group's estimation provider (what the optimizer calls)
+    for (m, n) in [(3, 2)] + ([(4, 3)] if tier == "thorough" else []):
+        out.append({"name": f"provider-vp-{m}x{n}", "kind": "vp", "m": m, "n": n, "q": "rational", "qseed": seed * 1000 + 77, "via": "provider"})
+        out.append({"name": f"provider-nnls-{m}x{n}", "kind": "nnls", "m": m, "n": n, "via": "provider"})
+    # every call site of the estimation providers (per index, linked, full model) must go through the group's function
+    for route in ("unlinked", "linked", "full"):
+        for rf in ("variable_projection", "non_negative_least_squares"):
+            out.append({"name": f"callsite-{route}-{rf}", "kind": "callsite", "route": route, "rf": rf})
     batches = []
     for i in range(0, len(out), 4):
         batches.append({"name": f"batch-{i // 4}", "items": out[i : i + 4]})
@@ -156,10 +164,11 @@ def run_config(batch, rec):
                     "Givens family; LAPACK / scipy.optimize.nnls replaced by their contracts")
     core.Ctx.generic_models = False
     for cfg in batch["items"]:
-        {"vp": _run_vp, "nnls": _run_nnls, "dispatch": _run_dispatch}[cfg["kind"]](cfg, rec)
+        {"vp": _run_vp, "nnls": _run_nnls, "dispatch": _run_dispatch, "callsite": _run_callsite}[cfg["kind"]](cfg, rec)
 
 
 def _run_vp(cfg, rec):
+    import glotaran.optimization.estimation_provider as ep
     import glotaran.optimization.variable_projection as vp
 
     m, n = cfg["m"], cfg["n"]
@@ -181,9 +190,15 @@ def _run_vp(cfg, rec):
         with Patcher() as p:
             p.set(vp, "lapack", types.SimpleNamespace(dgeqrf=stub.dgeqrf, dormqr=stub.dormqr, dtrtrs=stub.dtrtrs),
                   "scipy.linalg.lapack dgeqrf/dormqr/dtrtrs -> contract stubs")
+            if cfg.get("via") == "provider":
+                p.set(ep, "np", SymNP(), "numpy facade (estimation provider)")
             if not rec.shims:
                 rec.shims += p.record
-            clp, res = vp.residual_variable_projection(mat, dat)
+            if cfg.get("via") == "provider":
+                prov = ep.EstimationProvider(types.SimpleNamespace(residual_function="variable_projection", model=None, parameters=None))
+                clp, res = prov.calculate_residual(mat, dat)
+            else:
+                clp, res = vp.residual_variable_projection(mat, dat)
         return A, y, clp, res, stub.log
 
     for ctx, (kind, out) in core.explore(fn, rec.stats, max_paths=10):
@@ -211,6 +226,7 @@ def _run_vp(cfg, rec):
 
 
 def _run_nnls(cfg, rec):
+    import glotaran.optimization.estimation_provider as ep
     import glotaran.optimization.nnls as nn
 
     m, n = cfg["m"], cfg["n"]
@@ -235,9 +251,15 @@ def _run_nnls(cfg, rec):
         with Patcher() as p:
             p.set(nn, "nnls", nnls_stub, "scipy.optimize.nnls -> contract stub (fresh x >= 0 obeying KKT)")
             p.set(nn, "np", SymNP(), "numpy facade")
+            if cfg.get("via") == "provider":
+                p.set(ep, "np", SymNP(), "numpy facade (estimation provider)")
             if not rec.shims:
                 rec.shims += p.record
-            clp, res = nn.residual_nnls(mat, dat)
+            if cfg.get("via") == "provider":
+                prov = ep.EstimationProvider(types.SimpleNamespace(residual_function="non_negative_least_squares", model=None, parameters=None))
+                clp, res = prov.calculate_residual(mat, dat)
+            else:
+                clp, res = nn.residual_nnls(mat, dat)
         return mat, dat, xs, clp, res, calls
 
     for ctx, (kind, out) in core.explore(fn, rec.stats, max_paths=10):
@@ -304,6 +326,55 @@ def _run_dispatch(cfg, rec):
         rec.want_sample() and rec.sample({"residual_function": name, "invoked": [f.__name__ for f in called], "raised": type(exc).__name__ if exc else None})
 
 
+def callsite_cfg(cfg):
+    """A small pipeline configuration whose linear problems are solved at the call site named by cfg['route']."""
+    A2, A3 = [0.0, 1.0], [0.0, 1.0, 2.0]
+    grp = {"default": {"link_clp": cfg["route"] == "linked", "residual_function": cfg["rf"]}}
+    if cfg["route"] == "full":
+        return dict(name=cfg["name"], mcs={"m1": {"labels": ["s1", "s2"]}}, gmcs={"g1": {"labels": ["a"]}}, groups=grp,
+                    datasets=[{"label": "d1", "mc": ["m1"], "gmc": ["g1"], "maxis": A3, "gaxis": [1.0, 2.0]}])
+    return dict(name=cfg["name"], mcs={"m1": {"labels": ["s1", "s2"]}}, groups=grp,
+                datasets=[{"label": "d1", "mc": ["m1"], "maxis": A3, "gaxis": [1.0, 2.0]},
+                          {"label": "d2", "mc": ["m1"], "maxis": A2 + [3.0], "gaxis": [2.0, 3.0]}])
+
+
+def _run_callsite(cfg, rec):
+    """The optimizer's real call sites: every linear problem of the group is handed to the function the group names."""
+    from harness import c02_objective as c02
+    import glotaran.optimization.estimation_provider as ep
+
+    rec.encodes(ep.EstimationProviderUnlinked.calculate_estimation, ep.EstimationProviderUnlinked.calculate_full_model_estimation,
+                ep.EstimationProviderLinked.estimate)
+    pcfg = callsite_cfg(cfg)
+    direct = []
+    table = {"residual_variable_projection": "variable_projection", "residual_nnls": "non_negative_least_squares"}
+    with Patcher() as p0:
+        # a solver function referenced by name inside the provider module (not through the group's table) is recorded as such
+        for nm, key in table.items():
+            if hasattr(ep, nm):
+                p0.set(ep, nm, (lambda nm, key: lambda a, b: direct.append(nm) or ep.SUPPORTED_RESIUDAL_FUNCTIONS[key](a, b))(nm, key),
+                       f"estimation_provider.{nm} (module-level name) -> recording forwarder")
+        rec.shims += p0.record
+
+        def after(ctx, scheme, opt, stubs):
+            snap = ([dict(c) for c in c02.ordered_calls(stubs)], list(direct))
+            del direct[:]
+            return snap
+
+        paths = list(c02.symbolic_run(pcfg, rec, after=after))
+    for ctx, src, stubs, kind, out in paths:
+        rec.witness_path(ctx)
+        wit = lambda mm, cfg=cfg: {"env": model_env(mm), "item": cfg}  # noqa: E731
+        if kind == "exc":
+            rec.unexpected(ctx, f"{cfg['name']}: objective evaluation raised {type(out).__name__}: {out}", "callsite:exception", wit)
+            continue
+        calls, direct_calls = out[3]
+        fns = sorted({c["fn"] for c in calls} | {"direct:" + d for d in direct_calls})
+        rec.check_all(ctx, [("every linear problem of the group (per index / linked / full model) is solved by the residual function the group names",
+                             z3.BoolVal(bool(calls) and fns == [cfg["rf"]]), "callsite:wrong-function")], wit)
+        rec.want_sample() and rec.sample({"config": cfg["name"], "linear_problems": len(calls), "functions": fns})
+
+
 # ------------------------------------------------------------------------------------------------ float side
 def concrete(batch, env):
     return {"ok": True}
@@ -331,14 +402,27 @@ def replay(data):
             return True, "unknown residual function accepted"
         except ep.UnsupportedResidualFunctionError:
             return False, "dispatch as documented"
+    if cfg["kind"] == "callsite":
+        return _replay_callsite(cfg)
     rng = np.random.default_rng(1)
     m, n = cfg["m"], cfg["n"]
+    fn_ = residual_variable_projection if cfg["kind"] == "vp" else residual_nnls
+    scales = [1.0]
+    if cfg.get("via") == "provider":
+        import glotaran.optimization.estimation_provider as ep
+
+        rf = "variable_projection" if cfg["kind"] == "vp" else "non_negative_least_squares"
+        fn_ = ep.EstimationProvider(types.SimpleNamespace(residual_function=rf, model=None, parameters=None)).calculate_residual
+        # data of any magnitude (the optimum is homogeneous in the data): the counterexample's own scale first
+        env = data.get("env") or {}
+        ys = [abs(env[k]) for k in env if k.startswith("y_") and env[k]]
+        scales = ([max(ys)] if ys else []) + [1.0, 1e-6, 1e-9, 1e-12, 1e6, 1e12]
     for trial in range(20):
         A = rng.normal(size=(m, n))
         if cfg["kind"] == "nnls" and trial % 3 == 0:
             A[:, 0] = -np.abs(A[:, 0])  # a column that is negative everywhere
-        y = rng.normal(size=m)
-        fn_ = residual_variable_projection if cfg["kind"] == "vp" else residual_nnls
+        sc = scales[trial % len(scales)]
+        y = rng.normal(size=m) * sc
         try:
             Ain = np.asfortranarray(A) if trial % 2 else np.ascontiguousarray(A)
             yin = y.copy()
@@ -351,12 +435,40 @@ def replay(data):
         clp, res = np.asarray(clp), np.asarray(res)
         if clp.shape != (n,) or res.shape != (m,):
             return True, f"{cfg['name']}: shapes clp {clp.shape} residual {res.shape}"
-        if not np.allclose(res, y - A @ clp, atol=1e-9):
+        if not np.allclose(res, y - A @ clp, atol=1e-9 * sc, rtol=1e-9):
             return True, f"{cfg['name']}: residual {res.tolist()} != data - matrix clp {(y - A @ clp).tolist()} for A={A.tolist()} y={y.tolist()}"
         if cfg["kind"] == "vp" and not np.allclose(A.T @ res, 0, atol=1e-9 * np.linalg.norm(A) * np.linalg.norm(y)):
             return True, f"{cfg['name']}: residual not orthogonal to the columns: A^T r = {(A.T @ res).tolist()} for A={A.tolist()} y={y.tolist()}"
         if cfg["kind"] == "nnls":
             g = A.T @ res
-            if (clp < -1e-12).any() or (g > 1e-8).any() or not np.allclose(clp * g, 0, atol=1e-8):
+            if (clp < -1e-12 * sc).any() or (g > 1e-8 * sc).any() or not np.allclose(clp * g, 0, atol=1e-8 * sc * sc):
                 return True, f"{cfg['name']}: KKT conditions violated: clp={clp.tolist()} A^T r={g.tolist()}"
     return False, "float code satisfies the optimality conditions at 20 generic problems"
+
+
+def _replay_callsite(cfg):
+    """Float pipeline with recording wrappers around both residual functions, data with a negative unconstrained amplitude."""
+    import warnings as _w
+
+    import glotaran.optimization.estimation_provider as ep
+    from glotaran.optimization.optimizer import Optimizer
+    from harness import c02_objective as c02
+    from harness import pipeline as pl
+
+    pcfg = callsite_cfg(cfg)
+    env = c02.salted(3)
+    src = pl.Source(env)
+    used = []
+    with Patcher() as p, _w.catch_warnings():
+        _w.simplefilter("ignore")
+        for nm, real in list(ep.SUPPORTED_RESIUDAL_FUNCTIONS.items()):
+            p.setitem(ep.SUPPORTED_RESIUDAL_FUNCTIONS, nm, (lambda real, nm: lambda a, b: used.append(nm) or real(a, b))(real, nm), "recording wrapper")
+        for nm in ("residual_variable_projection", "residual_nnls"):
+            if hasattr(ep, nm):
+                p.set(ep, nm, (lambda real, nm: lambda a, b: used.append("direct:" + nm) or real(a, b))(getattr(ep, nm), nm), "recording wrapper")
+        scheme = pl.build_scheme(pcfg, src)
+        Optimizer(scheme, verbose=False).calculate_penalty()
+    if not used or set(used) != {cfg["rf"]}:
+        return True, (f"{cfg['name']}: the group's residual function is {cfg['rf']!r}, but its linear problems were solved through "
+                      f"{sorted(set(used))}")
+    return False, f"{len(used)} linear problems, all through {cfg['rf']}"
